@@ -182,6 +182,19 @@ def replay(ctx, path):
     rcx = 0
     for f in r.get("failures", []):
         c = f["case"]
+        if c.get("kind") == "strftime print then parse":
+            vlib.build_harness("c13")
+            fmt = c["format"]
+            line = "%s\t%d\t%d\t%d\t%d" % (fmt.encode().hex(), c["instant_ns"], c["offset_seconds"], int(c["parse_has_tz"]), c["parse_zone_seconds"])
+            out, err = vlib.harness("c13", [line], args=["rt"])
+            got = out[0].split("\t")[1] if out else "?"
+            want = f["expected"].split()[3]
+            rep = got != want
+            print("replay print-then-parse format=%r instant=%d offset=%d\n  expected %s\n  got %s\n  reproduced=%s" % (
+                fmt, c["instant_ns"], c["offset_seconds"], want, got, rep))
+            if rep:
+                rcx = 1
+            continue
         args = [a for a in c["args"] if a != "--summary"]
         rc, out, err = vlib.run_s4(args, env=c.get("env"), timeout=120)
         got = pu.strip_sgr(out)
